@@ -552,6 +552,7 @@ class Configuration:
 
     def clear(self) -> None:
         """Clear the configuration"""
+        self._profile_sections.clear()
         self._sections.clear()
         self.clear_vars()
 
